@@ -7,7 +7,7 @@ FLOW / AGREE like the others; none matches text, positions or names of locals.
 import re
 
 import anchors
-from core import BA, call_matches, callee_paths, op_local, op_const, const_int, taint, field_writes
+from core import BA, call_matches, callee_paths, op_local, op_const, const_int, const_str, taint, field_writes
 from facts import AnchorError, strip_generics
 from rules import common
 
@@ -906,6 +906,144 @@ def flags_exported_only_when_set(ctx, rid):
 # ------------------------------------------------------------------------------------------------
 # R6.10  the lock file is opened once per process
 
+def _str_lit_taint(body, only=None):
+    """({literal: locals that (may) hold a value computed from that string literal}, None): derived value flow seeded at
+    every use of a string literal as an operand (`p.push("locks")` taints p, `let n = "locks"` taints n, f("locks") its result)."""
+    from core import taint
+    ba = BA.of(body)
+    seeds = {}
+    for blk in body.blocks:
+        for st in blk["stmts"]:
+            if st["s"] == "assign" and st["rv"]["k"] in ("use", "cast"):
+                o = st["rv"].get("op")
+                cs = const_str(o) if o is not None else None
+                if cs is not None and (only is None or cs in only):
+                    seeds.setdefault(cs, set()).add(st["place"]["l"])
+        t = blk["term"]
+        if t["t"] == "call":
+            for a in t["args"]:
+                cs = const_str(a)
+                if cs is None or (only is not None and cs not in only):
+                    continue
+                seeds.setdefault(cs, set()).add(t["dest"]["l"])
+                for a2 in t["args"]:
+                    l2 = op_local(a2)
+                    if l2 is not None:
+                        pl = ba.resolve_ref(l2)
+                        if pl is not None:
+                            seeds[cs].add(pl["l"])
+    out = {}
+    for cs, sd in seeds.items():
+        out[cs] = taint(body, seeds=sd, mode="derived")
+    return out, None
+
+
+def probe_forks_while_owning(ctx, rid):
+    """Seeds C16-6 / C09-8: the WSL broken-locks probe proves fcntl works by forking a child that must *fail* to get a
+    lock the parent holds. That is only a proof if the parent holds it: Lock typestate at the fork must be `owned`
+    (wait_lock, or try_lock refined by is_owned). With a bare try_lock a concurrent start-up holding byte 0 makes the
+    child succeed -> `locks broken` -> journal_mode=PERSIST on a live WAL database -> "database is locked"."""
+    import typestate
+    ctx.rule(rid, "LockManager::detect_broken_locks forks its probe child only while it owns the probe lock (Lock typestate at the fork is `owned` on every path): otherwise another command's start-up makes the probe report broken locks and the database is switched to a journal mode that fails while anybody else has it open")
+    prog = ctx.prog
+    b = prog.one(r"state::LockManager::detect_broken_locks")
+    ba = BA.of(b)
+    forks = ba.calls(r"nix::unistd::fork")
+    news = [i for i in ba.calls(r"state::ProcessState::new_lock|state::Lock::new") if forks and ba.path([i], forks) is not None]
+    if not forks or not news:
+        raise AnchorError("%s: fork / probe lock of detect_broken_locks not located" % rid)
+    pre = typestate.derive_preconditions(prog)
+    for f in forks:
+        sts = set()
+        for i in news:
+            d = b.blocks[i]["term"]["dest"]
+            if d["p"]:
+                continue
+            ts = typestate.LockTS(prog, b, [d["l"]], preconds=pre)
+            st = ts.state_at(f)
+            if st:
+                sts |= set(st)
+        ok = sts == {"O"}
+        ctx.ob(rid, "detect_broken_locks|fork|probe-lock-owned", ok, where=ctx.where(b, f),
+               detail="the parent owns the probe lock when the child is forked" if ok else
+               "the probe child can be forked while the parent does not own the probe lock (typestate %s): if another command is starting up, the child gets the lock, `broken locks` is reported and this command fails with `database is locked`" % sorted(sts))
+
+
+def follower_reads_after_probe(ctx, rid):
+    """Seed C18-8: the log follower may stop (`no new lines and nobody holds the target's lock: done`) only if the empty
+    read happened *after* the probe that found the lock free. Probe first, then one more read: whatever the job wrote
+    before it released the lock is in the file by then. Read first, then probe: the job's last lines, its exit and the
+    unlock can all fall between the two, and the viewer ends without them."""
+    ctx.rule(rid, "redo-log's follower: between every probe of the target's lock and the end of the follow loop there is another attempt to read the log (read_line, or opening a log that did not exist yet): the last lines written before the lock was released are never skipped")
+    prog = ctx.prog
+    b = prog.one(r"@bin::log::LogState::catlog")
+    ba = BA.of(b)
+    probes = ba.calls(r"@bin::log::is_locked")
+    reads = ba.calls(r".*::BufRead(>)?::read_line|.*::read_line|std::fs::File::open")
+    rl = [i for i in reads if any(q.endswith("read_line") for q in callee_paths(b.blocks[i]["term"]))]
+    # "there is no reader" (no log file yet) is decided by the open attempt of the same iteration; the None side of
+    # `if let Some(f) = reader.as_mut()` can only be taken behind it
+    for sw in sorted(ba.live):
+        es = ba.enum_switch(sw)
+        if es and not es[0]["p"] and b.locals[es[0]["l"]].startswith("core::option::Option<&mut ") and "BufRead" in b.locals[es[0]["l"]]:
+            none_t = es[1].get(0, es[2])
+            reads = reads + [none_t]
+    oks = common.returned_ok_blocks(b)
+    if not probes or not rl or not oks:
+        raise AnchorError("%s: lock probe / read_line / Ok return of the log follower not located (probes=%d reads=%d)" % (rid, len(probes), len(rl)))
+    for k, i in common.ordinal_keys([("is_locked", i) for i in probes]):
+        pth = ba.path([i], oks, avoid=frozenset(reads))
+        ctx.ob(rid, "%s|%s|read-attempt-before-the-loop-can-end" % (b.key, k), pth is None, where=ctx.where(b, i),
+               detail="after this probe the loop cannot end without trying to read again" if pth is None else
+               "the follower can stop right after this probe without reading again: output written between its last (empty) read and the probe - typically the script's final lines - is never shown in the live view", witness=pth)
+
+
+def parse_keeps_text_verbatim(ctx, rid):
+    """Seed C18-7: a record's text (a target name, a message) is data: parse(format(x)) must give x back for every text
+    without a newline, including text that ends in blanks. Nothing computed by a trimming / case-folding / replacing
+    string function may reach the `text` of the parsed record, and the callers strip exactly the line terminator."""
+    from core import taint
+    ctx.rule(rid, "Meta::parse hands back the record's text verbatim: no result of a str trimming / replacing / case function flows into Meta.text, and the follower passes the line with exactly the terminating newline removed")
+    prog = ctx.prog
+    LOSSY = r"core::str::<impl str>::(trim\w*|to_\w*case\w*|replace\w*)|alloc::str::<impl str>::(to_\w*case\w*|replace\w*)"
+    mp = prog.one(r"logs::Meta::parse")
+    tn = taint(mp, src_call=lambda t_: call_matches(t_, LOSSY), mode="derived")
+    aggs = [(bb, s_) for bb, blk in enumerate(mp.blocks) for s_ in blk["stmts"]
+            if s_["s"] == "assign" and s_["rv"]["k"] == "agg" and s_["rv"].get("adt") == "logs::Meta" and "text" in (s_["rv"].get("fields") or [])]
+    if not aggs:
+        raise AnchorError("%s: construction of logs::Meta in Meta::parse not located" % rid)
+    mba = BA.of(mp)
+    for n, (bb, s_) in enumerate(aggs):
+        o = s_["rv"]["ops"][s_["rv"]["fields"].index("text")]
+        l = op_local(o)
+        bad = l is not None and (l in tn or any(x in tn for x in mba.ref_chain(l)))
+        ctx.ob(rid, "Meta::parse|Meta#%d|text-verbatim" % n, not bad, where=ctx.where(mp, bb),
+               detail="the text field is a slice of the input, untouched" if not bad else
+               "the parsed text has passed a trimming / replacing string function: a target name or message that ends in blanks no longer survives format -> parse, and the viewer then looks up the wrong target (`not known to redo`) and drops the rest of the build's output")
+    # callers: what reaches parse is the line minus (at most) the newline
+    n = 0
+    for b in prog.bodies.values():
+        ba = BA.of(b)
+        for i in ba.calls(r"logs::Meta::parse"):
+            if b.key.startswith("logs::tests") or "::tests::" in b.key:
+                continue
+            a = op_local(b.blocks[i]["term"]["args"][0])
+            if a is None:
+                continue
+            from rules.C06 import backward_direct
+            sl, org, _ = backward_direct(b, a, depth=30)
+            for o in org:
+                if o[0] != "call" or not call_matches(o[2], LOSSY):
+                    continue
+                n += 1
+                t = o[2]
+                only_nl = any(q.endswith("::trim_end_matches") or q.endswith("::strip_suffix") for q in callee_paths(t)) and len(t["args"]) == 2 and \
+                    ((op_const(t["args"][1]) or {}).get("int") == 10 or const_str(t["args"][1]) == "\n")
+                ctx.ob(rid, "%s|parse-argument|only-the-newline-stripped" % b.key, only_nl, where=ctx.where(b, o[1]),
+                       detail="the caller strips the line terminator and nothing else" if only_nl else
+                       "the caller trims more than the terminating newline before parsing: trailing blanks of a target name are lost")
+
+
 def lock_file_opened_once(ctx, rid):
     ctx.rule(rid, "only LockManager::open opens the lock file: closing any other descriptor of that file would drop every fcntl lock the process holds (POSIX), i.e. the locks of its running jobs")
     prog = ctx.prog
@@ -955,10 +1093,45 @@ def lock_file_opened_once(ctx, rid):
     ctx.ob(rid, "no-second-open-of-the-lock-file", not hits, where=ctx.where(hits[0][0], hits[0][1]) if hits else "",
            detail="no file is opened by a path stored in the LockManager" if not hits else
            "%s opens a file by a path stored in the LockManager: closing that second descriptor of the lock file drops every fcntl lock of the process, including those of running jobs" % hits[0][0].key)
-    # the path handed to LockManager::open is used for nothing else in init
+    # (c) nor by a path assembled again from the lock file's own name (seed C07-5: a sanity check that re-opens
+    # `.redo/locks` to compare inodes): the literal(s) that make up the path init hands to LockManager::open must not
+    # flow into any other open
     I = prog.one(r"state::ProcessState::init")
     iba = BA.of(I)
     lo = iba.calls(r"state::LockManager::open")
+    names = set()
+    if lo:
+        src0 = op_local(I.blocks[lo[0]]["term"]["args"][0])
+        for (lits, tn) in [_str_lit_taint(I)]:
+            for nm, locs in lits.items():
+                if src0 is not None and (src0 in locs or any(x in locs for x in iba.ref_chain(src0))):
+                    names.add(nm)
+    names = {n_ for n_ in names if n_ and n_ not in (".redo", ".", "..", "/")}
+    ctx.ob(rid, "lock-file-name-located", bool(names), where=ctx.where(I, lo[0]) if lo else I.span, detail="the lock file is named by %s" % sorted(names))
+    reopen = []
+    for b in prog.bodies.values():
+        if b.key in ("state::LockManager::open",):
+            continue
+        ba = BA.of(b)
+        opens = ba.calls(r"std::fs::OpenOptions::open|std::fs::File::(open|create|create_new)")
+        if not opens:
+            continue
+        lits, _ = _str_lit_taint(b, only=names)
+        for i in opens:
+            if b.key == I.key and lo and i == lo[0]:
+                continue
+            for a in b.blocks[i]["term"]["args"]:
+                l = op_local(a)
+                if l is None:
+                    continue
+                for nm in names:
+                    locs = lits.get(nm, set())
+                    if l in locs or any(x in locs for x in ba.ref_chain(l)):
+                        reopen.append((b, i, nm))
+    ctx.ob(rid, "lock-file-never-reopened-by-name", not reopen, where=ctx.where(reopen[0][0], reopen[0][1]) if reopen else "",
+           detail="no other open takes a path built from the lock file's name" if not reopen else
+           "%s opens a path built from the lock file's name %r: when that handle is closed the kernel drops every fcntl lock this process holds on the file - the locks of its running jobs - and another redo can start the same target" % (reopen[0][0].key, reopen[0][2]))
+    # the path handed to LockManager::open is used for nothing else in init
     if lo:
         src = op_local(I.blocks[lo[0]]["term"]["args"][0])
         roots = set(iba.ref_chain(src)) | {src}
@@ -1255,26 +1428,34 @@ TABLE = {
             ("R4.9", borrow("C13", "R13.3", r"^[^|]*\|\$3=", "two targets that differ only in the matched extension must not share one temp output file: the second script's output would replace or destroy the first's"))],
     "C11": [("R11.8", direct_modification_is_inequality),
             ("R11.9", borrow("C15", "R15.2", None, "the record consulted for `generated / override` must be the one of the file the kernel will resolve: a spelling cleaned before symlinks are resolved selects another record and a user's file is replaced"))],
-    "C06": [("R6.9", verdict_only_under_lock), ("R6.10", lock_file_opened_once)],
-    "C07": [("R7.5", verdict_only_under_lock),
+    "C06": [("R6.9", verdict_only_under_lock), ("R6.10", lock_file_opened_once),
+            ("R6.11", borrow("C15", "R15.9", None, "the lock id is the id of the record the name maps to: a directory spelling that is not resolved (a lexical shortcut, or a directory that does not exist yet) gives the same file a second record and a second lock, and two commands run its .do at the same time"))],
+    "C07": [("R7.5", verdict_only_under_lock), ("R7.8", lock_file_opened_once),
+            ("R7.9", borrow("C15", "R15.9", None, "two spellings of one target on a command line (or from two dependents) are folded by record id: a spelling whose directory is not resolved gets a record of its own and the target is built twice in the run")),
             ("R7.6", borrow("C02", "R2.3", r"marked-edges-still-listed", "while a target is being rebuilt its marked edges are the only record of why it is dirty: a dependent evaluated by a parallel job must still see them")),
             ("R7.7", borrow("C13", "R13.3", r"^[^|]*\|\$3=", "two targets of one default.*.do that differ only in the matched extension must not share a temp output name when built in parallel"))],
     "C08": [("R8.10", cheat_pipe_only_for_j0)],
     "C01": [("R1.9", check_never_refreshes_stamps),
+            ("R1.11", borrow("C15", "R15.2", None, "the builder records the new stamp on the record the requested spelling maps to, the .do's own redo-ifchange records its source edges on the record of $REDO_PWD/$REDO_TARGET: unless both spellings are resolved to one record the stamped record never sees a source change and redo-ifchange exits 0 with the target stale")),
+            ("R1.12", borrow("C02", "R2.2", None, "the edges of the previous build are deleted only when the new result is recorded (second phase): deleted up front, a build killed before its .do re-declares them leaves a target with no reason to be dirty")),
+            ("R1.13", borrow("C02", "R2.1", None, "first phase: old edges are only marked before the .do search and the fork")),
             ("R1.10", borrow("C02", "R2.3", r"marked-edges-still-listed", "after an interrupted rebuild the marked edges are the only reason the target is dirty"))],
     "C14": [("R14.7", borrow("C02", "R2.3", r"^(add_dep\||sql-literals-found)", "a re-declared ifcreate edge must replace last build's row and clear its deletion mark")),
             ("R14.6", borrow("C02", "R2.3", r"marked-edges-still-listed", "an ifcreate / always edge of an interrupted rebuild must still make the target dirty"))],
-    "C09": [("R9.8", borrow("C12", "R12.2", None, "a lock id that is not registered turns a cycle into an endless fcntl wait")),
+    "C09": [("R9.10", probe_forks_while_owning),
+            ("R9.8", borrow("C12", "R12.2", None, "a lock id that is not registered turns a cycle into an endless fcntl wait")),
             ("R9.9", borrow("C08", "R8.1", None, "a counter written outside the accounting functions breaks the top-level self-test: an all-success build exits 1"))],
     "C17": [("R17.6", ood_lists_every_nonclean), ("R17.7", check_never_refreshes_stamps)],
     "C18": [("R18.7", done_status_type_agrees), ("R18.8", seen_only_when_shown), ("R18.9", record_after_partial_line),
-            ("R18.10", record_names_relative_to_target_dir), ("R18.11", non_record_line_echoed_whole)],
+            ("R18.10", record_names_relative_to_target_dir), ("R18.11", non_record_line_echoed_whole),
+            ("R18.12", follower_reads_after_probe), ("R18.13", parse_keeps_text_verbatim)],
     "C15": [("R15.7", key_never_bypasses_relpath), ("R15.8", relpath_is_componentwise)],
-    "C10": [("R10.8", rename_inside_result_transaction), ("R10.10", interrupted_creation_is_recoverable), ("R10.11", failed_marker_not_cleared_at_start),
+    "C10": [("R10.12", borrow("C04", "R4.4", r"tmp-name|same-tmp", "the stale-output removal before the fork must name the same file the script will be told to write ($3, beside the target): removing another path leaves the half-written output of a killed build in place, to be taken for this build's output")),
+            ("R10.8", rename_inside_result_transaction), ("R10.10", interrupted_creation_is_recoverable), ("R10.11", failed_marker_not_cleared_at_start),
             ("R10.9", borrow("C05", "R5.3", None, "a job that dies (non-zero or by signal) has its un-redeclared edges deleted by zap_deps2, so it must be marked failed in the same transaction or it looks clean after the kill"))],
     "C12": [("R12.9", every_modified_dep_is_descended), ("R12.10", only_immediate_exit_becomes_job_result),
             ("R12.11", borrow("C13", "R13.3", r"argv\[0\.\.2\]", "a .do on the cycle must stop at the failing redo-ifchange (`sh -e`), or the entry target exits 0 although the cycle was detected below"))],
-    "C16": [("R16.7", state_dir_creation_is_idempotent),
+    "C16": [("R16.7", state_dir_creation_is_idempotent), ("R16.9", probe_forks_while_owning),
             ("R16.8", borrow("C06", "R6.3", None, "a record read before waiting for another command's lock predates that command's commit: using it afterwards writes stale state over the other command's result"))],
 }
 
